@@ -514,7 +514,7 @@ static void oracle_b(const struct stream *st, struct srv *s)
 	}
 	switch (ref.tail) {
 	case H1_OK: case H1_NEEDS_MORE:
-		MC_COUNT(ref.tail == H1_OK ? "b_tail_end" : "b_tail_needs_more");
+		if (ref.tail == H1_OK) MC_COUNT("b_tail_end"); else MC_COUNT("b_tail_needs_more");
 		if (k > ref.nmsgs) failk("extra-request-delivered", NULL, st, "%d requests delivered, the stream holds only %d complete messages (tail %s)", k, ref.nmsgs, h1_status_name(ref.tail));
 		break;
 	case H1_MUST_REJECT:
